@@ -554,6 +554,13 @@ func (f *baseFlow) VerifyBlockRangeGaps(
 		lastSettledToBlock = lastSentCertificate.ToBlock
 	}
 
+	if newToBlock <= lastSettledToBlock {
+		// the new range does not reach beyond the blocks that are already covered
+		// (e.g. the start L2 block checked on startup once certificates went past it):
+		// the blocks in between belong to previous certificates, they are not a gap
+		return nil
+	}
+
 	nextBlockRange := types.NewBlockRange(newFromBlock, newToBlock)
 	lastBlockRange := types.NewBlockRange(lastSettledFromBlock, lastSettledToBlock)
 
